@@ -2767,11 +2767,51 @@ fn hostile_zip(kit: &ZipKit, src: &Source, variant: usize, p: &mut Prng) -> Opti
 				}
 			})
 		}
+		18 | 19 if uncompacted => {
+			// an unspent output re-labelled (features byte) in the data file WITH its leaf hash recomputed in the hash
+			// file, so data and leaf hash agree and only the parent hash above (and with it the root) gives it away;
+			// 18: its sibling leaf is spent, 19: its sibling leaf is unspent too
+			let want_spent_sibling = variant == 18;
+			let cand: Vec<u64> = unspent
+				.iter()
+				.cloned()
+				.filter(|i| (i ^ 1) < src.n_out && src.bm_ref.contains((i ^ 1) as u32) != want_spent_sibling)
+				.collect();
+			if cand.is_empty() {
+				return None;
+			}
+			let i = *p.pick(&cand);
+			let class = if want_spent_sibling { "unspent_leaf_relabelled_with_matching_leaf_hash_sibling_spent" } else { "unspent_leaf_relabelled_with_matching_leaf_hash_sibling_unspent" };
+			rezip(class.into(), files.clone(), &move |w: &str| {
+				use grin_core::core::{OutputFeatures, OutputIdentifier};
+				use grin_core::ser::PMMRIndexHashable;
+				let dp = format!("{}/output/pmmr_data.bin", w);
+				let hp = format!("{}/output/pmmr_hash.bin", w);
+				let (mut d, mut hs) = match (std::fs::read(&dp), std::fs::read(&hp)) {
+					(Ok(a), Ok(b)) => (a, b),
+					_ => return false,
+				};
+				let o = (i * 34) as usize;
+				let pos0 = grin_core::core::pmmr::insertion_to_pmmr_index(i);
+				let ho = (pos0 * 32) as usize;
+				if o + 34 > d.len() || ho + 32 > hs.len() {
+					return false;
+				}
+				d[o] ^= 1;
+				let id = OutputIdentifier {
+					features: if d[o] == 1 { OutputFeatures::Coinbase } else { OutputFeatures::Plain },
+					commit: grin_util::secp::pedersen::Commitment::from_vec(d[o + 1..o + 34].to_vec()),
+				};
+				let nh = id.hash_with_index(pos0);
+				hs[ho..ho + 32].copy_from_slice(nh.as_bytes());
+				std::fs::write(&dp, d).is_ok() && std::fs::write(&hp, hs).is_ok()
+			})
+		}
 		_ => None,
 	}
 }
 
-const N_ZIP_VARIANTS: usize = 18;
+const N_ZIP_VARIANTS: usize = 20;
 
 thread_local! {
 	/// why the last archive was refused (error class or panic location)
@@ -3281,6 +3321,8 @@ fn main() {
 		run.require("b.sources.compacted", run.counter("b.sources.compacted"), q(1, 2));
 		run.require("c.hostile_pieces_refused", run.counter("c.hostile_pieces_refused"), q(100, 600));
 		run.require("c.hostile_syncs_ending_right", run.counter("c.hostile_syncs_ending_right"), q(2, 10));
+		let k = "c.zip_hostile_refused.unspent_leaf_relabelled_with_matching_leaf_hash_sibling_spent";
+		run.require(k, run.counter(k), q(2, 10));
 	}
 	run.finish();
 }
